@@ -1,71 +1,133 @@
 """Per-property manifest text.  A property appears in CHECKS once its check exists."""
 NOTE_COMMON = ("Trusted base: the hand-written explorer and reference model in /verif/mc (self-tested in "
-               "/verif/tests), CPython/numpy/numba as installed. Verdict covers exactly the bounds in the "
-               "evidence file; larger sizes rest on the small-scope argument of DESIGN.md section 1.")
-CHECKS = {
- "C05": {
-  "engine": "explorer-B",
-  "technique": "explicit-state model checking of the real Heap (BFS to fixpoint, reference priority queue in lock-step)",
-  "text": "Every reachable joint state (real Heap fields x reference queue) for capacities 1..5 (thorough: ..7), both "
-          "policies, all key tie patterns, is visited; every transition calls the real method and is compared with the "
-          "reference, every state is drained on a copy. Exhaustive within the bounds, so any wrong comparison, stale "
-          "position map or missed sift that has a witness with <= 5 (7) elements is found.",
-  "note": NOTE_COMMON,
- },
-}
+               "/verif/tests against more naive formulations and on a deliberately broken toy), CPython/numpy/numba "
+               "as installed. The verdict covers exactly the bounds reported in the evidence file (coverage.bounds, "
+               "coverage.rule); larger sizes rest on the small-scope argument of DESIGN.md section 1 and the limits "
+               "are listed in DESIGN.md 9.7. Every violation is re-executed from its recorded program without the "
+               "explorer before it is reported.")
+
 
 def _e(technique, text, engine="explorer-E"):
     return {"engine": engine, "technique": technique, "text": text, "note": NOTE_COMMON}
 
-CHECKS.update({
- "C01": _e("bounded-exhaustive exploration of the real SupervisedOPF.fit over all weak edge orderings / weight assignments x labelings, minimax-path reference",
-           "Every (graph, labeling) of the stated families (complete for n<=4 as order types) is fitted by the real code and the whole forest (costs, links, labels, order) is compared with a Floyd-Warshall minimax reference; exhaustive within bounds."),
- "C02": _e("bounded-exhaustive exploration; oracle enumerates all spanning trees and accepts any MST's boundary set",
-           "Prototype sets produced by the real code on every graph x labeling in the bounds (supervised and semi-supervised) must be a member of the all-MST boundary family; covers every tie pattern for n<=4."),
+
+CHECKS = {
+ "C01": _e("bounded-exhaustive exploration of the real SupervisedOPF.fit (all weak edge orderings for n<=4, all weight "
+           "assignments over 2-3 values for n=5(6), all lattice sequences up to n=7) against a Floyd-Warshall minimax "
+           "reference",
+           "Every (graph, labeling) of the stated families - complete as order types for n<=4, incl. zero weights, "
+           "non-identity index arrays, weights scaled by 1e-25..1e25 - is fitted by the real code on re-used model "
+           "objects and the whole forest (costs bit-exact, links, labels, conquest order) is compared with the "
+           "reference. Exhaustive within bounds."),
+ "C02": _e("bounded-exhaustive exploration; the oracle enumerates ALL spanning trees and accepts the boundary set of "
+           "any minimum one",
+           "Prototype sets produced by the real code on every graph x labeling of C01's families (supervised and "
+           "semi-supervised, up to 7 samples) must be a member of the all-MST boundary family; covers every tie "
+           "pattern for n<=4 and uniqueness on all strict orders."),
  "C03": _e("bounded-exhaustive exploration of (fitted forest, query) pairs against the exhaustive argmin",
-           "Every fitted forest on n<=4(5) samples x every query distance vector over the alphabet (train on each n-subset of each (n+1)-graph, predict the rest) is predicted by the real code and checked for membership in the exhaustive minimiser label set."),
- "C04": _e("bounded-exhaustive exploration: all strict edge orders, all arrangements of a generic point set under 40 metrics, all lattice data for KNN",
-           "All tie-free order types for n<=4 (thorough: all 10! for n=5) and every dissimilarity metric are trained and re-predicted by the real code; KNN-supervised on all lattice sequences with ties."),
- "C11": _e("bounded-exhaustive metamorphic exploration: all n! training orders x five monotone metric transforms",
-           "Every permutation of every tie-free training set in the bounds and every Euclidean-family identifier is run on the real code and compared per sample with the base run."),
- "C15": _e("bounded-exhaustive exploration of SemiSupervisedOPF.fit over all graphs on labeled+unlabeled nodes, minimax reference + differential vs SupervisedOPF",
-           "Every graph on n_l+n_u <= 6 nodes over the weight alphabet x every labeling: full-graph minimax reference, labeled-MST prototype family, and state identity with SupervisedOPF when n_u = 0."),
-})
-
-CHECKS.update({
- "C06": _e("bounded-exhaustive evaluation of every metric on all ordered vector pairs of the domain grids against an independent closed-form transcription; registry/option/accepted-set probes",
-           "All ordered pairs over the R/N/P/S grids (lengths 1..3, thorough 4) for all 47 identifiers via the registry, plus resolution through OPF and the four model constructors and the accepted-identifier set; exhaustive over the grids."),
- "C07": _e("explicit-state search over call histories (pool bits x hidden-state digest x model digest) with prefix replay; all metric call histories of length <= 3",
-           "Every history of <=3 metric calls over every ordered (also aliased) pair of a zero-containing pool for all 47 metrics, BFS to fixpoint (depth<=4) over model operations for the four kinds, and fresh-twice differential; each transition is a real call checked for caller-array bit-identity and history-independent value.", engine="explorer-B"),
- "C08": _e("bounded-exhaustive evaluation of the axiom table on all ordered pairs and all ordered triples of the domain grids (pair matrix filled by real calls)",
-           "Finite/symmetric/non-negative/zero-self on all ordered pairs and triangle on all ordered triples of the class grids for the rows of the fixed axiom table; exhaustive over the grids."),
-})
-
-CHECKS.update({
- "C09": _e("exhaustive enumeration of all batches (<=3) and all two-call histories over a query pool for every fitted model of the bounded families; model-state hash closes the history space",
-           "For each of the four kinds and every lattice training sequence, every batch/history in the bounds is predicted by the real code and compared with the sample's stand-alone outcome; the prediction-relevant model state is hashed after each call (fixpoint at one state).", engine="explorer-B"),
- "C12": _e("bounded-exhaustive exploration of fresh k-NN subgraphs plus explicit-state search over create/pdf/eliminate/destroy operation sequences (prefix replay, reference in lock-step)",
-           "Every graph/lattice sequence x k x k' x height on a fresh subgraph, every operation sequence to depth 4 (5) with state dedup, and the subgraph state left by both density fits, compared with a sorted-distance reference.", engine="explorer-B"),
- "C13": _e("bounded-exhaustive exploration of both density fits over lattice/generic/graph families and all k ranges; forest invariants checked on the final state with adjacency snapshots taken through outside seams",
-           "All lattice sequences (heavy ties), generic arrangements and pre-computed graphs x all k ranges: every clause of the statement is evaluated on the real final state."),
- "C14": _e("bounded-exhaustive exploration of (fitted model, query, batch position) against the exhaustive k-nearest max-min rule with every valid tie choice",
-           "Every model of the lattice families x every query (training copies, midpoints, far) x every batch position 0..n; membership in the set of outcomes allowed by the exhaustive rule."),
- "C16": _e("stateless choice exploration: every criterion answer sequence scripted through the intercepted accuracy / cut routine; plus recorded natural criterion values",
-           "All 120 (KNN) / all (unsupervised) answer sequences over the criterion alphabet for every k range up to 4, and all lattice training/validation sets with the real criterion recorded; oracle = smallest best candidate and final model built with it.", engine="explorer-D"),
-})
-
-CHECKS.update({
- "C10": _e("bounded-exhaustive differential exploration: every ordered train index set x metrics x file formats x models, file written by the library's own routine",
-           "For every dataset in the bounds the distance file is produced by pre_compute_distance (.txt and .csv) and every ordered train/test index split is trained and predicted twice (file-fed vs feature-fed); node state, order, best_k, clusters and predictions must be bit-identical; get_distances() vs the metric on all ordered pairs."),
- "C17": _e("stateless choice exploration of every RNG answer sequence of SupervisedOPF.learn by prefix replay; bounded-exhaustive exploration of predict marking and prune runs",
-           "All 648 tiny learn configurations are explored over every sequence of answers of the intercepted random draw (complete), each execution checked for sample conservation and best-model retention; relevance marking is checked against every choice of exhaustive minimisers on all forests of the C03 families; prune re-fit sets are checked against the flags.", engine="explorer-D"),
- "C18": _e("stateless choice exploration: every permutation answer of the intercepted numpy permutation in split; bounded-exhaustive exploration of all small OPF binary datasets through the converters/loaders/parser",
-           "split/split_with_index/merge are run for every permutation the RNG could return (n<=5), every percentage and label pattern; all small datasets are written as OPF binaries and taken through opf2txt/csv/json, the loaders, the parser and Subgraph(from_file).", engine="explorer-D"),
- "C19": _e("explicit enumeration of all enabled save/load/predict operation sequences (prefix replay) for every kind x metric x distance mode, field-by-field state comparison",
-           "Every enabled sequence of {save, load into fresh, predict original, predict loaded, save loaded} up to depth 3 (4) for 4 kinds x 47 metrics (x pre-computed mode), with the original's full state hashed around save, the loaded state compared field by field and predictions compared; separate-interpreter load.", engine="explorer-B"),
- "C20": _e("bounded-exhaustive enumeration of all (labels, predictions) vectors and small matrices against exact rational definitions",
-           "All label/prediction pairs with K<=3 (4), length<=5 (6) in both list and array form and all small matrices: every measure is compared with the statement's definition evaluated in Fraction arithmetic."),
-})
-
-NOT_APPLICABLE = {p: "check not built yet (build in progress; see DESIGN.md section 7)" for p in
-                  ["C%02d" % i for i in range(1, 21)]}
+           "Every fitted forest on n<=4(5) samples x every query distance vector over the alphabet (train on each "
+           "n-subset of each (n+1)-graph, predict the rest), value tables in near-equal / tiny / huge regimes, "
+           "direction-dependent metrics and tiny-scale lattices; the returned label must belong to the exhaustive "
+           "minimisers' label set computed from the model's own costs."),
+ "C04": _e("bounded-exhaustive exploration: all strict edge orders, all arrangements of a generic point set under 40 "
+           "metrics, numerical-regime tables, all lattice data for KNN",
+           "All tie-free order types for n<=4 (thorough: all 10! for n=5), every dissimilarity metric, near-equal / "
+           "huge / tiny regimes are trained and re-predicted by the real code; KNN-supervised on all lattice "
+           "sequences with ties, validation sets and max_k."),
+ "C05": _e("explicit-state model checking of the real Heap: BFS to fixpoint from the empty heap (reference priority "
+           "queue in lock-step) plus depth-bounded BFS from every valid heap arrangement of up to 9 (10) keys",
+           "Every reachable joint state (real Heap fields x reference queue) for capacities 1..5 (thorough ..7), both "
+           "policies, all key tie patterns incl. FLOAT_MAX/inf, and every operation sequence of length <= 2 (3) from "
+           "each of the 1198 (4558) valid heaps of 6..9 (10) distinct keys built through real inserts; every "
+           "transition calls the real method, every state is drained on a copy.", engine="explorer-B"),
+ "C06": _e("bounded-exhaustive evaluation of every metric on all ordered vector pairs of the domain grids (caller "
+           "buffers re-used in place) against an independent closed-form transcription; length sweep; registry / "
+           "option / accepted-set / save-load probes",
+           "All ordered pairs over the R/N/P/S/T grids (lengths 1..3, thorough 4) for all 47 identifiers via the "
+           "registry, every vector length 1..160 and around 256/512/1024 incl. a cancellation-prone pair, resolution "
+           "through OPF and the four model constructors (also after a save/load into another identifier) and the "
+           "accepted-identifier set."),
+ "C07": _e("explicit-state search over call histories (pool bits x hidden-state digest x model digest) with prefix "
+           "replay from a restored pristine module state; all metric call histories of length <= 3",
+           "Every history of <=3 operations over {metric call on any ordered (also aliased) pair, caller overwrites "
+           "its vector in place, float32 evaluation} for all 47 metrics; BFS to fixpoint (depth<=4) over model "
+           "operations incl. fits of unrelated models for the four kinds; fresh-twice differential; each transition "
+           "is a real call checked for caller-array bit-identity and history-independent value.", engine="explorer-B"),
+ "C08": _e("bounded-exhaustive evaluation of the fixed axiom table on all ordered pairs and all ordered triples of "
+           "the domain grids (pair matrix filled by real calls)",
+           "Finite/symmetric/non-negative/zero-self on all ordered pairs and triangle on all ordered triples of the "
+           "class grids (incl. the tolerance ladder around 1e-8 / 1e-5 and zero-containing vectors) for the rows of "
+           "the axiom table; finiteness and symmetry also on vectors of length 32..1024."),
+ "C09": _e("exhaustive enumeration of all batches (<=3) and all two-call histories over a query pool for every fitted "
+           "model of the bounded families; model-state hash closes the history space",
+           "For each of the four kinds and every lattice training sequence (KNN/unsupervised also with k forced), "
+           "every batch/history in the bounds is predicted by the real code and compared with the sample's "
+           "stand-alone outcome; the prediction-relevant model state is hashed after each call (fixpoint at one "
+           "state).", engine="explorer-B"),
+ "C10": _e("bounded-exhaustive differential exploration: every ordered train index set x metrics x file formats x "
+           "models x dataset dtypes, file written by the library's own routine",
+           "For every dataset in the bounds the distance file is produced by pre_compute_distance (.txt and .csv) and "
+           "every ordered train/test index split is trained and predicted twice (file-fed vs feature-fed); node "
+           "state, order, best_k, clusters and predictions must be bit-identical; get_distances() vs the metric on "
+           "all ordered pairs."),
+ "C11": _e("bounded-exhaustive metamorphic exploration: all n! training orders x five monotone metric transforms; "
+           "monotone ladder of 1.8e5 distances per identifier",
+           "Every permutation of every tie-free training set in the bounds (integer pools, a pool with cancelling "
+           "coordinates, a 1e-11-scaled pool) and every Euclidean-family identifier is run on the real code and "
+           "compared per sample with the base run; each identifier is checked to be non-decreasing in the Euclidean "
+           "distance over a fine multiplicative ladder."),
+ "C12": _e("bounded-exhaustive exploration of fresh k-NN subgraphs plus explicit-state search over "
+           "create/pdf/eliminate/destroy operation sequences (prefix replay, reference in lock-step)",
+           "Every graph/lattice sequence (incl. non-identity index arrays, direction-dependent metrics, the 1e-5 "
+           "fallback alphabets) x k x k' x height on a fresh subgraph, every operation sequence to depth 4 (5) with "
+           "state dedup, and the subgraph state left by both density fits, compared with a sorted-distance "
+           "reference.", engine="explorer-B"),
+ "C13": _e("bounded-exhaustive exploration of both density fits over lattice / generic / graph / squeezed-density "
+           "families and all k ranges, with the validation criterion scripted to select every k; forest invariants "
+           "on the final state, adjacency snapshots through outside seams, k-NN radius recomputed independently",
+           "All lattice sequences (heavy ties), generic arrangements, pre-computed graphs and gap-sequence sets with "
+           "an outlier x all k ranges x every selectable k: every clause of the statement is evaluated on the real "
+           "final state."),
+ "C14": _e("bounded-exhaustive exploration of (fitted model, query, batch position) against the exhaustive k-nearest "
+           "max-min rule with every valid tie choice",
+           "Every model of the lattice families (every k also forced) x every query (training copies, midpoints, "
+           "far) x every batch position 0..n, plus a 1e-11-scaled family; membership in the set of outcomes allowed "
+           "by the exhaustive rule."),
+ "C15": _e("bounded-exhaustive exploration of SemiSupervisedOPF.fit over all graphs on labeled+unlabeled nodes, "
+           "minimax reference + differential vs SupervisedOPF",
+           "Every graph on n_l+n_u <= 6 nodes over the weight alphabet x every labeling, lattice sequences, int64 "
+           "labeled matrices and index arrays without pre-computed distances: full-graph minimax reference, "
+           "labeled-MST prototype family, and state identity with SupervisedOPF when n_u = 0."),
+ "C16": _e("stateless choice exploration: every criterion answer sequence scripted through the intercepted accuracy / "
+           "cut routine (also on previously used instances); plus recorded natural criterion values",
+           "All answer sequences over the criterion alphabets (with near-tie and tiny positive values) for every k "
+           "range up to 4 on fresh and on previously fitted instances, and all lattice training/validation sets "
+           "with the real criterion recorded; oracle = smallest best candidate and final model built with it.",
+           engine="explorer-D"),
+ "C17": _e("stateless choice exploration of every RNG answer sequence of SupervisedOPF.learn by prefix replay (also "
+           "with the accuracy scripted); bounded-exhaustive exploration of predict marking and prune runs",
+           "All 648 tiny learn configurations over every sequence of answers of the intercepted random draw, plus "
+           "every accuracy script over {0, 0.5, 1}; relevance marking against every choice of exhaustive minimisers "
+           "on all forests of the C03 families incl. zero weights; prune re-fit sets against the flags on 1-D and "
+           "2-D lattice arrangements.", engine="explorer-D"),
+ "C18": _e("stateless choice exploration: every permutation answer of the intercepted numpy permutation in split; "
+           "bounded-exhaustive exploration of all small OPF binary datasets through the converters/loaders/parser",
+           "split/split_with_index/merge for every permutation the RNG could return (n<=5), every percentage and "
+           "label pattern; all small datasets (ids up to 2**31-1) written as OPF binaries and taken through "
+           "opf2txt/csv/json, the loaders, the parser and Subgraph(from_file), re-using the same paths.",
+           engine="explorer-D"),
+ "C19": _e("explicit enumeration of all enabled save/load/predict operation sequences (prefix replay) for every kind "
+           "x metric x distance mode, field-by-field state comparison",
+           "Every enabled sequence of {save, load into a fresh object built with another metric, predict original, "
+           "predict loaded, save loaded} up to depth 3 (4) for 4 kinds x 47 metrics (x pre-computed mode), depth 5 "
+           "(6) for the default metric, all saves to one path; the original's full state hashed around save, the "
+           "loaded state compared field by field, predictions compared; separate-interpreter load.",
+           engine="explorer-B"),
+ "C20": _e("bounded-exhaustive enumeration of all (labels, predictions) vectors and small matrices against exact "
+           "rational definitions; dtype x class-count sweep; in-place two-call histories",
+           "All label/prediction pairs with K<=3 (4), length<=5 (6) in list and array form, K up to 300 in six "
+           "integer dtypes, histories in which the caller overwrites its label array, and all small matrices incl. "
+           "ill-conditioned columns: every measure is compared with the statement's definition in Fraction "
+           "arithmetic."),
+}
+NOT_APPLICABLE = {}
